@@ -346,7 +346,7 @@ package plugin
 //@   bounded always [C04.bounded] [C18.gor]
 //@   wait call (*sync.WaitGroup).Wait#1 signalled_by logStderr, Start$2, Start$3, Start$4$1, reattach$1: each ends once the process has exited (mode peer-dead after the kill point)
 //@   requires valid_client(c) && valid_reattach(c) && !held(c.l)
-//@   modifies $CLIENT_EFFECTS, removed, waited, grace
+//@   modifies $CLIENT_EFFECTS, removed, waited, grace, close_ret, grace_out
 //@   local grace: Bool := false
 //@   at call (*sync.Mutex).Unlock#1 bind r0: Iface := c.runner
 //@   at call (*sync.Mutex).Unlock#1 bind ak: Iface := c.address
@@ -361,6 +361,11 @@ package plugin
 //@   ensures r0 != nil && runner_id(r0) != "" ==> grace || kills[r0] >= old(kills)[r0] + 1   [C04.end]
 //@   ensures grace ==> kills[r0] == old(kills)[r0]   [C04.grace]
 //@   ensures r0 != nil && runner_id(r0) != "" && ak == nil ==> kills[r0] >= old(kills)[r0] + 1   [C04.force] [C05.c]
+//@   local close_ret: Bool := false
+//@   local grace_out: Bool := false
+//@   after select#1 set close_ret := index == 0
+//@   after select#2 set grace_out := index == 1
+//@   at call (runner.AttachedRunner).Kill#1 assert close_ret ==> grace_out   [C04.grace]
 
 //@ func (*Client).Kill$2
 //@   spawn_inline
